@@ -10,6 +10,12 @@ CHECKS = {
  "C06": dict(level=MC, engine="graphwalk+tracecheck", technique="TLA+ ADT spec (LRUCache.tla) model-checked by TLC; TLC's complete edge relation replayed into the real object (graph walk); recorded random histories validated by TLC (trace validation)",
              text="TLC exhaustively checks the LRU specification (size bound, read-your-write, evict-only-LRU, add-only-stored as invariants/action properties; negative control with MRU eviction must fail) for 3-4 keys x 2 values x capacities 1..4, emits every labelled transition, and the real LRUCache is driven through every (state, operation) pair and must land on an allowed successor; longer seeded histories over 8 keys / capacities 1..5 are recorded from the real object and accepted or rejected by TLC.",
              note="small-scope: exhaustive for the stated constants, sampled beyond; keys/values are ints; observation through the public API on a deep copy; TLC 1.8, CPython 3.12 trusted", ref="4 C06, 2.3"),
+ "C07": dict(level=MC, engine="graphwalk+tracecheck", technique="TLA+ ADT spec (LFUCache.tla, hidden use counts, nondeterministic ties) model-checked by TLC; graph walk over candidate count vectors; trace validation by TLC",
+             text="TLC exhaustively checks the LFU specification (size bound, read-your-write, evict-only-a-least-used key, count rule; negative control evicting a most-used key must fail) for 3 keys x 2 values x capacities 1..3 within a use-count bound, emits every labelled transition, and the real LFUCache is driven through every (observable state, operation) pair while the walk keeps the set of hidden count vectors the spec still allows; seeded histories over 6 keys are validated by TLC.",
+             note="use counts are not observable: candidate-set tracking; exhaustive part bounded by a count cap; ties and 'may or may not count' are free in the spec so the code's own choices are never constrained", ref="4 C07"),
+ "C08": dict(level=MC, engine="graphwalk+tracecheck", technique="TLA+ ADT spec (DLList.tla, operations defined on node identity) model-checked by TLC; graph walk of every (list, operation, node) triple; random and long-run traces validated by TLC",
+             text="TLC exhaustively checks the list specification (each node linked once, len = count, moves permute; negative control where a move loses one from len must fail) for up to 4 live / 5 created nodes over 2 payload values, emits every transition, and the real DoublyLinkedList is driven through every (state, operation) pair comparing forward walk, backward walk, len() and iteration; random histories and runs of 1500-4000 equal payloads with moves deep inside are recorded and validated by TLC.",
+             note="node arguments are nodes of the list; links read through head/tail/prev_node/next_node; small-scope exhaustive, sampled beyond", ref="4 C08"),
 }
 PENDING = "check not built yet in this session (planned, see DESIGN.md section 4)"
 
